@@ -118,6 +118,12 @@ theorem readPacket_makeData (d : DataIn) (sign H : Bytes → Bytes) (e : Encoded
     ∃ cov, readPacket H r = .ok (.data (dataExpect d e.sigVal) cov) :=
   readPacket_makeData_E encSpecs d sign H e r hv hm hr
 
+theorem readPacket_makeInterest (i : InterestIn) (sign H : Bytes → Bytes) (e : Encoded) (fn : Name) (r : Rd)
+    (hv : i.Valid) (hnt : NoTrailingDigest i) (hH : ∀ x, (H x).length = 32)
+    (hm : makeInterest i sign H = .ok (e, fn)) (hr : At r e.wire.flatten 0) :
+    ∃ cov, readPacket H r = .ok (.interest (interestExpect i fn e.sigVal) cov) ∧ (i.est > 0 → e.sigCovered = some cov) :=
+  readPacket_makeInterest_E encSpecs i sign H e fn r hv hnt hH hm hr
+
 /-! ### standalone name / component codecs -/
 
 theorem nameBytes_eq_packetName (n : Name) :
